@@ -21,6 +21,7 @@ func genChatPlan(tp *simrt.Tape, seed uint64, tier string) any {
 	}
 	p.Clients = 2 + tp.Draw(4)
 	p.Faults = !tp.Chance(1, 3)
+	smallIds := tp.Chance(1, 3)
 	genConnectAll(tp, p)
 	users := g.Users
 	join := func(c int) {
@@ -84,6 +85,10 @@ func genChatPlan(tp *simrt.Tape, seed uint64, tier string) any {
 			op := confOp{Kind: "chat", C: c, Dest: -1, V: val, Sub: []string{"", "", "me", "caption"}[tp.Draw(4)], Flag: tp.Chance(1, 5)}
 			if tp.Chance(1, 3) {
 				op.Raw = fmt.Sprintf("id%d", k)
+				if smallIds {
+					// message ids are chosen by the clients: they may collide
+					op.Raw = fmt.Sprintf("id%d", k%3)
+				}
 			}
 			p.Ops = append(p.Ops, op)
 		case 1:
@@ -109,6 +114,9 @@ func genChatPlan(tp *simrt.Tape, seed uint64, tier string) any {
 				raw = fmt.Sprintf(`{"userId":"c%d"}`, tp.Draw(p.Clients))
 			case 2:
 				raw = fmt.Sprintf(`{"userId":"c%d","id":"id%d"}`, tp.Draw(p.Clients), tp.Draw(k+1))
+				if smallIds {
+					raw = fmt.Sprintf(`{"userId":"c%d","id":"id%d"}`, tp.Draw(p.Clients), tp.Draw(3))
+				}
 			case 3:
 				raw = fmt.Sprintf(`{"id":"id%d"}`, tp.Draw(k+1)) // malformed: id without userId
 			}
@@ -314,10 +322,16 @@ func runChat(c *Ctx, plan any) {
 	if c.Run.Failed() {
 		return
 	}
+	for _, sc := range w.clients {
+		if sc.conn != nil {
+			sc.conn.Stall(false)
+		}
+	}
 	if !w.settle(5 * time.Minute) {
 		c.Count("inconclusive.no_quiescence", 1)
 		return
 	}
+	endAt := time.Now()
 	// delivery completeness and exclusivity for broadcasts
 	for _, cr := range chatOrder {
 		if !cr.accepted || cr.typ != "chat" && cr.typ != "usermessage" {
@@ -422,10 +436,8 @@ func runChat(c *Ctx, plan any) {
 		for _, rm := range sc.recv {
 			if rm.Type == "joined" && rm.Kind == "join" {
 				// find when this client's join was handled
-				for _, h := range w.handledL {
-					if h.Client == sc && h.Type == "join" && h.Kind == "join" && h.Exit <= rm.Stamp {
-						lastJoinSent = h.Enter
-					}
+				if h := joinOf(w, sc, rm); h != nil {
+					lastJoinSent = h.Enter
 				}
 			}
 			if rm.Type != "chathistory" {
@@ -439,13 +451,92 @@ func runChat(c *Ctx, plan any) {
 				if cl.h.Before.Group != cr.h.Before.Group {
 					continue
 				}
-				matches := cl.all || (cl.userId == cr.sender.id && (cl.id == "" || cl.id == cr.id))
+				matches := cl.all || (cl.userId == storedSource(cr) && (cl.id == "" || cl.id == cr.id))
 				if matches && cr.h.Exit < cl.h.Enter && cl.h.Exit < lastJoinSent {
-					c.Violation("C15.history-not-cleared", "client %s was sent history entry %q although a clearchat covering it completed before its join", sc.id, cr.value)
+					c.Violation("C15.history-not-cleared", "client %s was sent (at %d) history entry %q (stored at %d) although a clearchat covering it (handled at %d..%d) completed before its join (handled from %d)", sc.id, rm.Stamp, cr.value, cr.h.Exit, cl.h.Enter, cl.h.Exit, lastJoinSent)
 					return
 				}
 			}
 			c.Count("chat.history_checked", 1)
+		}
+	}
+	// completeness: a broadcast chat that was stored before a join began, is
+	// covered by no clearchat of the whole run, is young enough and cannot
+	// have been pushed out by the 50-entry bound must be replayed to the
+	// joiner ("operators can remove ONE message, one user's messages, or
+	// everything": nothing else disappears)
+	perGroup := map[string]int{}
+	for _, cr := range chatOrder {
+		if cr != nil && cr.bcast && cr.accepted && cr.typ == "chat" {
+			perGroup[cr.h.Before.Group]++
+		}
+	}
+	for _, sc := range w.clients {
+		// the joins of this client, with what was replayed after each
+		type jn struct {
+			h    *handled
+			got  map[string]bool
+			done bool
+		}
+		var joins []*jn
+		for _, rm := range sc.recv {
+			if rm.Type == "joined" && rm.Kind == "join" {
+				jh := joinOf(w, sc, rm)
+				if len(joins) > 0 {
+					joins[len(joins)-1].done = true
+				}
+				joins = append(joins, &jn{h: jh, got: map[string]bool{}})
+				continue
+			}
+			if len(joins) == 0 {
+				continue
+			}
+			j := joins[len(joins)-1]
+			switch {
+			case rm.Type == "chathistory":
+				j.got[fmt.Sprint(rm.M["value"])] = true
+			case rm.Type == "joined" && (rm.Kind == "leave" || rm.Kind == "fail"):
+				j.done = true
+			}
+		}
+		if !sc.alive() {
+			continue // the replay may have been cut short
+		}
+		for ji, j := range joins {
+			if j.h == nil {
+				continue
+			}
+			_ = ji
+			grp := j.h.After.Group
+			if grp == "" || perGroup[grp] > 45 {
+				continue
+			}
+			maxAge := 4 * time.Hour
+			for _, gg := range p.Groups {
+				if gg.Name == grp && gg.HistAge > 0 {
+					maxAge = time.Duration(gg.HistAge) * time.Second
+				}
+			}
+			for _, cr := range chatOrder {
+				if cr == nil || !cr.bcast || !cr.accepted || cr.typ != "chat" || cr.h.Before.Group != grp || cr.h.Exit >= j.h.Enter {
+					continue
+				}
+				if endAt.Sub(cr.at) > maxAge-2*time.Second {
+					continue // it may have aged out at some point of the run
+				}
+				covered := false
+				for _, cl := range clears {
+					if cl.h.Before.Group == grp && (cl.all || (cl.userId == storedSource(cr) && (cl.id == "" || cl.id == cr.id))) {
+						covered = true
+					}
+				}
+				if covered || j.got[cr.value] {
+					continue
+				}
+				c.Violation("C15.history-missing", "client %s joined %s (join handled at %d..%d) and was not sent the history entry %q (id %q, sent by %s, stored at %d), which no clearchat of the run covers (clears: %d; chats in this group in the whole run: %d)", sc.id, grp, j.h.Enter, j.h.Exit, cr.value, cr.id, cr.sender.id, cr.h.Exit, len(clears), perGroup[grp])
+				return
+			}
+			c.Count("chat.history_completeness_checked", 1)
 		}
 	}
 	// history age: entries older than the configured age at delivery time
@@ -459,9 +550,14 @@ func runChat(c *Ctx, plan any) {
 				continue
 			}
 			var joinAt time.Time
-			for _, h := range w.handledL {
-				if h.Client == sc && h.Type == "join" && h.Kind == "join" && h.Exit <= rm.Stamp {
-					joinAt = h.At
+			for _, m := range sc.recv {
+				if m.Stamp > rm.Stamp {
+					break
+				}
+				if m.Type == "joined" && m.Kind == "join" {
+					if h := joinOf(w, sc, m); h != nil {
+						joinAt = h.At
+					}
 				}
 			}
 			maxAge := 4 * time.Hour
@@ -481,6 +577,42 @@ func runChat(c *Ctx, plan any) {
 	c.StateSig = uint64(len(chatOrder))<<16 ^ uint64(len(clears))<<8 ^ uint64(len(memLog))
 	b, _ := json.Marshal(len(p.Ops))
 	c.Sample("chat: clients=%d ops=%s chats_handled=%d clears=%d histage=%ds", p.Clients, b, len(chatOrder), len(clears), p.Groups[0].HistAge)
+}
+
+// joinOf attributes the k-th "joined/join" message a client received to the
+// k-th join of that client that the server handled successfully (a join
+// sent while the client is a member is refused without a joined message;
+// the reply to an earlier join may arrive after a later one was handled).
+func joinOf(w *confWorld, sc *simClient, rm recvMsg) *handled {
+	k := 0
+	for _, m := range sc.recv {
+		if m.Type == "joined" && m.Kind == "join" {
+			if m.Stamp == rm.Stamp {
+				break
+			}
+			k++
+		}
+	}
+	for _, h := range w.handledL {
+		if h.Client == sc && h.Type == "join" && h.Kind == "join" && !h.Before.InGroup && h.After.InGroup {
+			if k == 0 {
+				return h
+			}
+			k--
+		}
+	}
+	return nil
+}
+
+// storedSource: the source under which the server stored a chat in the
+// history: the sender's id, or nothing when the message claimed no source
+// (such an entry belongs to no user: only "clear everything" removes it).
+func storedSource(cr *chatRec) string {
+	switch cr.spoof {
+	case "nosource", "none", "nosource-otheruser":
+		return ""
+	}
+	return cr.sender.id
 }
 
 func contains2(l []string, s string) bool {
